@@ -4,7 +4,7 @@ The engine binaries keep deciding their own (behavioural) oracles; in addition a
 report on stderr becomes a violation whose signature names the tool, the kind of report and the
 first frame inside /repo, and whose replay file is the saved report.
 
-  kind "miri": cargo +nightly miri run (tree borrows, isolation off), one process per shard,
+  kind "miri": cargo +nightly miri run (aliasing models off, isolation off), one process per shard,
                each with its own -Zmiri-seed (scheduler / weak-memory / weak-CAS randomness).
   kind "asan": cargo +nightly build -Zsanitizer=address into target-asan, then native shards.
   kind "tsan": cargo +nightly build -Zsanitizer=thread -Zbuild-std into target-tsan, then native shards
@@ -19,7 +19,11 @@ ROOT = os.path.dirname(os.path.dirname(os.path.abspath(__file__)))
 HARNESS = os.path.join(ROOT, "harness")
 NCPU = os.cpu_count() or 8
 
-MIRI_BASE = "-Zmiri-disable-isolation -Zmiri-tree-borrows -Zmiri-backtrace=full"
+# The aliasing models are switched off: stacked borrows rejects every future that hands out a pointer to its pinned
+# slot (rendezvous), tree borrows rejects the mpmc Stream registration that keeps a pointer to a field of the (Unpin)
+# AsyncReceiver across polls. Both are questions about Rust's experimental aliasing rules, not about any of the 20
+# properties; Miri still reports data races, dangling / out-of-bounds / uninitialised accesses, invalid values, leaks.
+MIRI_BASE = "-Zmiri-disable-isolation -Zmiri-disable-stacked-borrows -Zmiri-backtrace=full"
 
 REPO_FRAME = re.compile(r"(?:at |--> )(/repo/[^\s:]+):(\d+)")
 FN_FRAME = re.compile(r"^\s*\d+: (.+)$")
@@ -74,6 +78,8 @@ def classify_miri(text):
     m = re.search(r"^error: (Undefined Behavior|memory leaked|deadlock|Data race)[^\n]*", text, re.M)
     if not m:
         return None
+    if "Borrows rules it violated are still experimental" in text:
+        return None  # aliasing-model report (cannot happen with the models off; kept as a guard)
     line = m.group(0)
     if "Data race" in line or "data race" in line.lower():
         kind = "data-race"
